@@ -10,6 +10,21 @@ CHECKS = {
     "C04": ("ALLOC", "exploration", "stateful property-based testing of the real ResourceAllocator against a harness-side ledger (reference model)",
             "Random descriptors (range/list/uneven groups/sum with fractional size, couplings) and random try_allocate/release sequences; after every operation a ledger of live allocations is compared index by index with the allocator's pools and its concise summary: exclusivity (<=100% per index, sum <= size), exact amounts, one fractional index and it is last, indices/groups belong to the descriptor, conservation after release, `all` of everything granted after the final release.",
             "the task environment variables (HQ_RESOURCE_VALUES_*) are checked in the SIM engine, not here; requests respect CLI rules", "5/C04"),
+    "C15": ("SCHED", "exploration", "property-based testing of single scheduling rounds with a validity predicate over (dispatched, remaining)",
+            "Random small clusters (idle or partly busy) and ready queues; one round of the real MILP scheduler through the server API; for every pair (dispatched lower-priority task, remaining higher-priority ready task) the statement's predicate is evaluated literally, including the exception clause. Instances with one worker and at most two request classes must be clean; the counter-example families announced by the property text (>=3 classes, >=2 workers) are known findings with their own signatures; inversions within one request class always count as violations.",
+            "only rounds whose solve completed optimally are judged; 'too busy' of the exception clause is interpreted against free resources before the round minus dispatches of at least the waiting task's priority", "5/C15"),
+    "C17": ("AUTOALLOC", "exploration", "stateful property-based testing of the real autoalloc state machine against a fake batch system with reference models of the limits and the back-off contract",
+            "Generated histories of demand, ticks, status reports, worker connects/losses, pause/resume/remove and clock advances through the real handle_message/perform_submits/do_periodic_update; invariants after every step (backlog, max worker count, workers per allocation, nothing for paused queues, nothing without fitting demand, back-off delays per the documented RateLimiter contract as a set of possible states, pause after the configured failures) and a must-submit check after resume in a clear-cut state.",
+            "fake QueueHandler at the trait boundary; event loop replaced by explicit tick/update actions; mocked monotonic clock", "5/C17"),
+    "C18": ("AUTOALLOC", "exploration", "stateful property-based testing with a reference model of the allocation life-cycle",
+            "Same engine as C17 with a life-cycle model per allocation: forward-only state sequence, exactly-once announcements, exact connected-worker set while running, normal finish exactly when the number of distinct lost workers reaches the target, unknown allocations change nothing, queue removal cancels each active allocation once and forgets everything.",
+            "allocations that saw a loss while queued or a status error are excluded from the life-cycle comparison (statement silent / error streak thresholds not modelled)", "5/C18"),
+    "C19": ("STREAM", "exploration", "round-trip property-based testing: real stream writers -> files (interleaved, several writers, torn) -> real OutputLog reader",
+            "Several real StreamerRef writers write generated chunk sequences of several tasks and instances into one directory, interleaved by a generated schedule; crashed writers lose their tail (file cut at a generated offset); cat (both channels), export and summary of the real reader are compared with what the last execution of every task that ended on a live writer wrote.",
+            "pipes of real child processes are replaced by send_data calls with the chunking of resend_stdio", "5/C19"),
+    "C20": ("AUTH", "exploration", "property-based testing with a generated man-in-the-middle and a provenance-based reference model of acceptance",
+            "Three honest do_authentication endpoints over in-memory duplex streams, an earlier clean session for replays, and an adversary that forwards/drops/reflects/replays/splices/edits each of the handshake messages; an endpoint must accept iff it received a request with its protocol, expected peer role and compatible mode and a response that is NoAuth (no key) or byte-identical to a proof produced by an honest holder of the same key with the expected role for this connection's challenge; sealed messages must round-trip after a clean handshake.",
+            "cryptographic strength of orion assumed; my_role != peer_role", "5/C20"),
     "C16": ("ALLOC", "exploration", "property-based differential testing: real allocator vs brute-force reference over all group subsets",
             "For every request the grant/refusal and the groups used are compared with an exhaustive reference on the pre-state snapshot: feasibility (non-strict requests never refused spuriously, never granted infeasibly), minimum groups now (compact/tight), minimum groups on the empty worker (strict, if granted), maximum spread (scatter), `all`, single fractional index, is_enabled == try_allocate, no panic.",
             "coupling weights <= 256 with at most 3 items; refusals of strict requests are not judged", "5/C16"),
@@ -54,7 +69,7 @@ CHECKS = {
             "as C01", "5/C14"),
 }
 
-CLAIMED = ["C01", "C02", "C03", "C04", "C05", "C06", "C07", "C08", "C09", "C10", "C11", "C12", "C13", "C14", "C16"]
+CLAIMED = ["C%02d" % i for i in range(1, 21)]
 
 NOT_YET = {
     "C01": "check under construction in this round (SIM monitors written, not yet validated on the unchanged tree)",
@@ -113,6 +128,10 @@ def main():
         },
         "engines": [
             {"name": "ALLOC", "path": "/verif/harness/src/alloc.rs", "serves_properties": ["C04", "C16"], "kind_free_text": "real ResourceAllocator through tako::verif::AllocatorHandle, ledger + brute-force reference"},
+            {"name": "SCHED", "path": "/verif/harness/src/sched.rs", "serves_properties": ["C15"], "kind_free_text": "one scheduling round of the real scheduler on generated clusters/queues, literal validity predicate"},
+            {"name": "AUTOALLOC", "path": "/verif/harness/src/autoalloc.rs", "serves_properties": ["C17", "C18"], "kind_free_text": "real autoalloc state machine (hook autoalloc::verif) against a fake batch system, real tako core as demand source, mocked monotonic clock"},
+            {"name": "STREAM", "path": "/verif/harness/src/stream.rs", "serves_properties": ["C19"], "kind_free_text": "real StreamerRef writers and real OutputLog reader, stdout of cat/export captured"},
+            {"name": "AUTH", "path": "/verif/harness/src/auth.rs", "serves_properties": ["C20"], "kind_free_text": "real do_authentication endpoints over duplex streams with a generated adversary"},
             {"name": "RESTORE", "path": "/verif/harness/src/restore.rs", "serves_properties": ["C10", "C11", "C12", "C03", "C06", "C07"], "kind_free_text": "journals written by SIM through the real journal process, cut at every record boundary, real restore vs independent reference fold; pruned vs shadow journal"},
             {"name": "SIM", "path": "/verif/harness/src/sim", "serves_properties": ["C01", "C02", "C03", "C05", "C06", "C07", "C08", "C09", "C13", "C14"], "kind_free_text": SIM},
         ],
